@@ -9,9 +9,9 @@ func init() {
 	}
 	properties["C02"] = &Property{
 		Title: "sequences are well-formed and inside the window",
-		Rules: []string{"R-WINGUARD", "R-MINLEN", "R-AUX", "R-LITPAIR"},
+		Rules: []string{"R-WINGUARD", "R-MINLEN", "R-AUX", "R-LITPAIR", "R-OFFSET-BACK"},
 		Decided: "window guard 0<o≤WindowSize, lower bound of MatchLen, Aux zero, LitLen pairing at every emission site.",
-		NotDecided: "Offset ≤ number of stream bytes before the match (needs j ≥ 0 as a value fact).",
+		NotDecided: "for OSAP, Offset ≤ bytes before the match rests on suffix-array entries being ≥ 0 (C09); decided for the six self-verifying parsers (R-OFFSET-BACK).",
 	}
 	properties["C03"] = &Property{
 		Title: "Parse accounts exactly and makes progress",
